@@ -115,7 +115,7 @@ PROP_SUITES = {
     "C04": ["smc_plain", "smc_far", "smc_tracked", "kind_churn", "rand_store"],
     "C08": ["smc_plain", "smc_far", "kind_churn", "rand_store", "rand_tracked", "world:rand_mixed"],
     "C12": ["smc_tracked", "kind_churn", "rand_tracked", "rand_world_tracked"],
-    "C13": ["smc_plain", "rand_store", "rand_tracked", "world:mc_store"],
+    "C13": ["smc_plain", "rand_store", "rand_tracked", "kind_churn", "world:mc_store"],
 }
 
 TID0 = {"smc_plain": 11000000, "smc_tracked": 12000000, "smc_far": 13000000, "rand_store": 14000000,
